@@ -1,6 +1,7 @@
 (* Properties/C20.v -- Adaptive clipping follows its update rule and its cost is fully accounted  (PARTIAL: see the finding). *)
-From Coq Require Import ZArith Reals.
-From OV Require Import Base.Num Base.NumR Base.Py Gen.AdaClip Proofs.AdaClipR.
+From Coq Require Import ZArith Reals List.
+From OV Require Import Base.Num Base.NumR Base.Py Gen.AdaClip Gen.Ghost Proofs.AdaClipR.
+Import ListNotations.
 Local Open Scope R_scope.
 
 (* the rule generated from update_max_grad_norm: C' = clamp(C exp(-lr (b~ - gamma)), [min, max]), b~ = noisy count / sample size *)
@@ -21,7 +22,27 @@ Proof. exact (sigma_split_identity sigma sigma_b). Qed.
 Theorem C20_sigma_g_exceeds_nominal (sigma sigma_b : R) : 0 < sigma -> sigma < 2 * sigma_b -> sigma < ada_sigma sigma sigma_b.
 Proof. exact (sigma_g_gt_sigma sigma sigma_b). Qed.
 
+(* the ghost adaptive engine's backward, as generated statement by statement: the per-sample norms are read after the first pass, the bound
+   and the noise multiplier are updated from them, module AND optimizer receive the new bound, and only then are the clipping coefficients
+   computed and the second pass run with hooks disabled -- so the gradients of a step are clipped with the very bound that scales its noise *)
+Definition pos (o : gop) (l : list gop) : nat :=
+  (fix go (l : list gop) (i : nat) : nat := match l with [] => i | x :: r => if (match x, o with
+     | GReduce, GReduce | GBackwardReduced, GBackwardReduced | GOptZeroGrad, GOptZeroGrad | GClipCoef, GClipCoef | GSecondLoss, GSecondLoss
+     | GSecondSum, GSecondSum | GDisableHooks, GDisableHooks | GBackwardSecond, GBackwardSecond | GEnableHooks, GEnableHooks | GReadNorms, GReadNorms
+     | GAdaptiveUpdate, GAdaptiveUpdate | GSetModuleBound, GSetModuleBound | GSetOptimizerBound, GSetOptimizerBound
+     | GSetNoiseMultiplier, GSetNoiseMultiplier => true | _, _ => false end) then i else go r (S i) end) l 0%nat.
+Theorem C20_ghost_adaptive_backward_order :
+  let l := ghost_adaptive_backward_ops in
+  (pos GBackwardReduced l < pos GReadNorms l)%nat /\ (pos GReadNorms l < pos GAdaptiveUpdate l)%nat /\
+  (pos GAdaptiveUpdate l < pos GSetModuleBound l)%nat /\ (pos GAdaptiveUpdate l < pos GSetOptimizerBound l)%nat /\
+  (pos GAdaptiveUpdate l < pos GSetNoiseMultiplier l)%nat /\
+  (pos GSetModuleBound l < pos GClipCoef l)%nat /\ (pos GSetOptimizerBound l < pos GClipCoef l)%nat /\
+  (pos GClipCoef l < pos GDisableHooks l)%nat /\ (pos GDisableHooks l < pos GBackwardSecond l)%nat /\ (pos GBackwardSecond l < pos GEnableHooks l)%nat /\
+  (pos GEnableHooks l < length l)%nat.
+Proof. vm_compute. repeat split; repeat constructor. Qed.
+
 Print Assumptions C20_update_rule.
 Print Assumptions C20_count_noninterference.
 Print Assumptions C20_sigma_split_identity.
 Print Assumptions C20_sigma_g_exceeds_nominal.
+Print Assumptions C20_ghost_adaptive_backward_order.
